@@ -24,26 +24,26 @@ CLAIMED = {
    "exact comparison, no tolerance; constrained compositions of the catalogue only; a call that performed no iteration under the fixed-point criterion returns the caller's own vector and is judged only up to tol (DESIGN 8.17)"),
  "C05": ("exploration", "5 / C05",
    TECH + "histories of solves, hyper-parameter changes (in place and by new objects), paths in any order, storage switches, budget crashes, solves killed at a seam event (F-INTERRUPT) and restarts from surviving buffers; oracles = per-operation certificate, buffer = X w + b, optimum at quiescence, bounded liveness (absolute and warm-versus-cold)",
-   "History machine at solver level: after every operation the certificate for that operation's problem and the consistency of the caller-held model-fit buffer are checked against the reference model; histories end with a quiescent solve compared with the witness optimum.",
+   "History machine at solver level: after every operation the certificate for that operation's problem and the consistency of the pair of arrays the caller actually holds (also when the solver hands back another array) are checked against the reference model; the simulated client of an in-place solver goes on with its own arrays; SqrtLasso.path sweeps in any order are judged point by point; histories end with a quiescent solve compared with the witness optimum.",
    "reference model; buffer allowance eps * scale * (1e4 + 10 sqrt(#updates) + 0.25 #updates) plus the extrapolation amplification observed at the seam"),
  "C16": ("exploration", "5 / C16",
    TECH + "routes to the critical strength (cold, warm from a converged fit at small alpha, paths crossing alpha_max, crash + restart); oracle = reference alpha_max (unpenalised part optimised) -> exact zeros above / non-zero below",
-   "alpha is placed at alpha_max * {1+4e-9, 1.001 .. 10, 0.9 .. 0.999} with the reference model's alpha_max; exact zeros are demanded where they are implied (gap dominating the tolerance under the subdifferential criterion, or cold start with nothing unpenalised, or cold start on exactly centred columns - also for the non-convex MCP family at any gamma), non-zero coefficients below; the library's own alpha_max helpers (five penalties, _alpha_max_group_lasso) must return the reference critical value.",
+   "alpha is placed at alpha_max * {1+4e-9, 1.001 .. 10, 0.9 .. 0.999} with the reference model's alpha_max; exact zeros are demanded where they are implied (gap dominating the tolerance under the subdifferential criterion, or cold start with nothing unpenalised, or cold start on exactly centred columns - also for the non-convex MCP family at any gamma), non-zero coefficients below; the library's own alpha_max helpers (five penalties, _alpha_max_group_lasso) must return the reference critical value; one run in five goes through the estimators (fit at / above alpha_max, refits just above and below on the same, mostly warm_start, object).",
    "reference alpha_max (null model fitted by least squares / BFGS); convex penalties for the gap rule"),
  "C17": ("fault_enumeration", "5 / C17",
    "deterministic simulation with fault injection: crash-point enumeration over budgets for all nine solvers with iteration counting at the seams; oracles = history length = outer iterations observed, last entry = reference objective of the returned point, prefix consistency across budgets",
-   "Every stopping point of the budget grid: len(obj_out) equals the number of working-set selections (or Gram epochs) counted at the seam, the last entry equals the reference objective of the returned point, the history under budget K extends the history under budget k < K, and on a tolerance stop the returned stopping value may not understate the recomputed violation (subdifferential and fixed-point criteria) by more than a factor 2.",
+   "Every stopping point of the budget grid: len(obj_out) equals the number of working-set selections (or Gram epochs) counted at the seam, the last entry equals the reference objective of the returned point, the history under budget K extends the history under budget k < K, and on a tolerance stop the returned stopping value may not understate the recomputed violation (subdifferential and fixed-point criteria) by more than a factor 2; for FISTA, which has no seam to count at, the crash points themselves bound the number of iterations performed.",
    "seams (numpy.argpartition / kernel wrappers) only count; reference objective with 1e-7 relative slack"),
 }
 
 CLAIMED.update({
  "C09": ("exploration", "5 / C09",
    TECH + "draws of the hidden generator behind the sparse power method (the simulator re-seeds numba's / numpy's generator per draw; adversarial start vectors in the interpreted twin); oracle = dense-SVD truth from the reference model",
-   "For seeded sparse matrices (low rank, clustered leading singular values, tiny / huge scale, zero columns) every sparse global and group constant is evaluated under 64 (quick) or 256 (thorough) generator seeds: never above the true value, not below the second singular direction's value, median equal to the leading one. Dense constants and raw_hessian are compared with the reference curvature as a deterministic by-product.",
+   "For seeded sparse matrices (low rank, clustered leading singular values, tiny / huge scale, zero columns) every sparse global and group constant is evaluated under 64 (quick) or 256 (thorough) generator seeds: never above the true value, not below the second singular direction's value, median equal to the leading one. Dense constants and raw_hessian (the Cox bound on tied survival times included) are compared with the reference curvature as a deterministic by-product; a third of the plans carry zero sample weights and the accessors' input arrays are compared afterwards.",
    "dense SVD (numpy) as truth; lower bound carries a 5% slack; by-product part is evaluation, not simulation"),
  "C10": ("exploration", "5 / C10",
    TECH + "paired replicas of one estimator-level fit that differ only in the container of X (dense F / C / strided view / CSC / CSR / list / float32); oracle = outcome class and converged objective within the convexity margin",
-   "The same seeded estimator and data are fitted on two storage replicas; both must solve (or the unsupported one be refused), each converged result must be stationary for the documented objective, and on convex problems the two objectives must agree within tol * ||w_a - w_b||_1 (single precision margin for float32); converged non-convex replicas must reach the same stationary point; some replica pairs use structured designs with exactly zero column sums.",
+   "The same seeded estimator and data are fitted on two storage replicas; both must solve (or the unsupported one be refused), each converged result must be stationary for the documented objective, and on convex problems the two objectives must agree within tol * ||w_a - w_b||_1 (single precision margin for float32); converged non-convex replicas must reach the same stationary point; some replica pairs use structured designs with exactly zero column sums; on convex problems a replica that converges quickly while the other exhausts the same ample budget far from stationarity is a violation.",
    "reference objective; trajectories are never compared step by step"),
  "C11": ("exploration", "5 / C11",
    TECH + "estimator-level histories (construct with drawn arguments, fit, set_params, refit with and without warm start, path); oracle = certificate and witness optimum for the objective written in the estimator's documentation, with the current get_params()",
@@ -55,7 +55,7 @@ CLAIMED.update({
    "refusal strata are validated on the uncompiled objects first (validation only inspects attribute names); compiled engine for typing errors"),
  "C18": ("exploration", "5 / C18",
    TECH + "histories of 2-10 fits / paths over several datasets (often of the same shape) and estimators sharing datafit / penalty classes, user-held solver objects reused after solver.path(), fits killed part-way at a seam event (F-INTERRUPT), jitclass-cache clearing / pollution, float32 and float64 interleaved; oracles = byte hashes of every input before / after, bitwise equality of the last fit with the same fit executed alone in a pristine forked interpreter (RNG seam pinned)",
-   "State that can leak between fits (lru_cache of jitclasses, compiled instances rewritten by path(), estimator attributes, hidden RNG) is exercised by seeded histories; the final fit is compared bit for bit with a pristine-process fit; inputs and the scalar hyper-parameters of user-held solver objects are snapshotted around every operation; refits must succeed, also after an interrupted fit.",
+   "State that can leak between fits (lru_cache of jitclasses, compiled instances rewritten by path(), estimator attributes, hidden RNG) is exercised by seeded histories; the final fit is compared bit for bit with a pristine-process fit; inputs and the scalar hyper-parameters of user-held solver objects are snapshotted around every operation; refits must succeed, also after an interrupted fit. A fifth of the twin histories are solver-level: one solver object of any kind solves problem A under a small budget, then problem B (new array, written into the array A lived in, or rescaled in place; in half of the draws with the same datafit / penalty objects and run_checks=False) and must return bit for bit what a fresh solver returns.",
    "bitwise equality is only demanded within one engine with the RNG seam pinned; the pristine state is a fork taken before the worker compiled or fitted anything"),
  "C19": ("exploration", "5 / C19",
    TECH + "degenerate structure injected as a static data fault (zero column / group, duplicated or constant column, zero or constant target, one feature, n < p, 1e+-6 and 1e+-9 column scale with the regularisation chosen relative to the remaining columns) into seeded solves, warm starts and restarts of every catalogue family; oracles = finite, certificate, exact zero on null columns, no crash, no hang",
@@ -63,7 +63,7 @@ CLAIMED.update({
    "zero coefficients on null columns are demanded where leaving them non-zero breaks stationarity by more than tol"),
  "C20": ("exploration", "5 / C20",
    "deterministic simulation with fault injection: the same seeded plans replayed by the compiled engine, by the compiled engine with NUMBA_BOUNDSCHECK=1 and (natively bounds-checked) by the interpreted twin; oracle = no IndexError / broadcasting error, same outcome class, same converged objective",
-   "Shapes that move the last feature / group / sample to array ends (intercept on / off, working set = all features, one group, empty or full last CSC column, mis-sized start vectors that must be refused); the twin phase visits every catalogue entry in every batch. Trajectories are not compared bit for bit (see DESIGN section 8): a bounds-checked build rounds differently and the solvers branch on rounding-level quantities.",
+   "Shapes that move the last feature / group / sample to array ends (intercept on / off, working set = all features, one group, empty or full last CSC column, mis-sized start vectors that must be refused); the twin phase visits every catalogue entry in every batch; a quarter of the Cox plans have no observed event. Trajectories are not compared bit for bit (see DESIGN section 8): a bounds-checked build rounds differently and the solvers branch on rounding-level quantities.",
    "numba's NUMBA_BOUNDSCHECK switch (not a source hook); negative-index wrap-around is not visible to bounds checking"),
 })
 
